@@ -272,6 +272,22 @@ class CFGBuilder:
                 self.connect(d, n)
                 return [(n, "n")]
             return d2
+        if isinstance(st, (ast.Assign, ast.AnnAssign)) and isinstance(st.value, ast.IfExp):
+            # `x = a if c else b` is lowered to a branch: the graph is the same as for `if c: x = a` / `else: x = b`
+            targets = st.targets if isinstance(st, ast.Assign) else [st.target]
+
+            def arm(val, dd):
+                if isinstance(val, ast.IfExp):
+                    dd = self.expr_events(val.test, st, dd, frames)
+                    tn = g.new("test", val.test, st)
+                    self.connect(dd, tn)
+                    return arm(val.body, [(tn, "T")]) + arm(val.orelse, [(tn, "F")])
+                dd = self.expr_events(val, st, dd, frames)
+                for t in targets:
+                    dd = self.store_events(t, st, dd, frames, value=val)
+                return dd
+
+            return arm(st.value, d)
         if isinstance(st, ast.Assign):
             d = self.expr_events(st.value, st, d, frames)
             for t in st.targets:
@@ -293,6 +309,24 @@ class CFGBuilder:
             n = g.new("store", st, st, unparse(st), target="del " + ",".join(unparse(t) for t in st.targets))
             self.connect(d, n)
             return [(n, "n")]
+        if isinstance(st, ast.Return) and isinstance(st.value, ast.IfExp):
+            # `return a if c else b` is lowered to a branch with one return per arm
+            def rarm(val, dd):
+                if isinstance(val, ast.IfExp):
+                    dd = self.expr_events(val.test, st, dd, frames)
+                    tn = g.new("test", val.test, st)
+                    self.connect(dd, tn)
+                    rarm(val.body, [(tn, "T")])
+                    rarm(val.orelse, [(tn, "F")])
+                    return
+                dd = self.expr_events(val, st, dd, frames)
+                rs = ast.copy_location(ast.Return(value=val), st)
+                n_ = g.new("return", rs, st)
+                self.connect(dd, n_)
+                self.leave(n_, frames, "return")
+
+            rarm(st.value, d)
+            return []
         if isinstance(st, ast.Return):
             if st.value is not None:
                 d = self.expr_events(st.value, st, d, frames)
